@@ -307,16 +307,27 @@ class Walk:
             qt = chinfo.make_valid(np.sum([l.get_charge(q) for l, q in zip(legs, qi)], axis=0))
         labels = rng.choice([None, ['a', 'b', 'c', 'd'][:rank], ['p', 'q*', 'r', 's'][:rank]])
         H.begin()
-        a = self.npc.Array.from_func(self.rand_block(dtype), legs, dtype=dtype, qtotal=qt, labels=labels)
+        u = rng.random()
+        if u < 0.1:
+            a = self.npc.ones(legs, dtype=dtype, qtotal=qt, labels=labels)
+        elif u < 0.15:
+            a = self.npc.zeros(legs, dtype=dtype, qtotal=qt, labels=labels)
+        else:
+            a = self.npc.Array.from_func(self.rand_block(dtype), legs, dtype=dtype, qtotal=qt, labels=labels)
         H.end('from_func', [call('new', g=gi, n=[dcode(a.dtype)], l=[keys_of(a)], b=[a._qdata_sorted], res='a')],
               new_arrs=[a])
 
     # ----- leg level
-    def op_leg(self):
+    def op_leg(self, force=None):
         H, rng = self.H, self.rng
         i = rng.randrange(len(H.G))
+        pipes = [k for k, x in enumerate(H.G) if isinstance(x, H.LegPipe)]
+        if pipes and rng.random() < 0.4:
+            i = rng.choice(pipes)
+        kind = rng.choice(['conj', 'flip', 'sort', 'bunch', 'project', 'extend', 'copy', 'pipe', 'pipe', 'to_LegCharge', 'outer_conj'])
+        if force is not None:
+            i, kind = force
         l = H.G[i]
-        kind = rng.choice(['conj', 'flip', 'sort', 'bunch', 'project', 'extend', 'copy', 'pipe', 'to_LegCharge'])
         pipe = isinstance(l, H.LegPipe)
         H.begin()
         if kind == 'conj':
@@ -333,6 +344,27 @@ class Walk:
                 raise Skip()
             r = l.to_LegCharge()
             c = call('leg.to_LegCharge', g=[i], res='g')
+        elif pipe and kind in ('sort', 'bunch', 'project'):
+            # LegPipe.sort/bunch/project convert to a LegCharge first (new object sharing the arrays) and return that
+            # object itself when there is nothing to do
+            if kind == 'sort':
+                _, r = l.sort(bunch=rng.random() < 0.5)
+            elif kind == 'bunch':
+                _, r = l.bunch()
+            else:
+                mask = np.array([rng.random() < 0.7 for _ in range(l.ind_len)])
+                mask[0] = True
+                _, _, r = l.project(mask)
+            if r.slices is l.slices and r.charges is l.charges:
+                c = call('leg.to_LegCharge', g=[i], res='g')
+            else:
+                c = call('leg.new', b=[r.qconj > 0, r.sorted, r.bunched], res='g')
+            kind = 'pipe.' + kind
+        elif kind == 'outer_conj':
+            if not pipe:
+                raise Skip()
+            r = l.outer_conj()
+            c = call('leg.flip', g=[i], res='g')
         elif kind == 'sort':
             if pipe:
                 raise Skip()
@@ -365,6 +397,9 @@ class Walk:
             r = H.LegPipe([H.G[j] for j in js], qconj=rng.choice([1, -1]))
             c = call('leg.pipe', g=js, b=[r.qconj > 0, r.sorted, r.bunched], res='g')
         H.end('leg.' + kind, [c], new_legs=[r])
+        if kind == 'pipe' and force is None and rng.random() < 0.7:
+            # the functions a LegPipe overrides, on the pipe just made
+            self.op_leg(force=(len(H.G) - 1, rng.choice(['sort', 'bunch', 'project', 'outer_conj', 'conj', 'to_LegCharge', 'flip'])))
 
     # ----- not in place
     def op_copy(self):
@@ -461,13 +496,27 @@ class Walk:
         a = H.A[i]
         new = 'L%d' % len(H.ops)
         H.begin()
-        if rng.random() < 0.5:
+        u = rng.random()
+        if u < 0.3:
             r = a.replace_label(a._labels[0], new)
             H.end('replace_label', [call('replace_label', a=[i], res='a')], new_arrs=[r])
+        elif u < 0.45:
+            r = a.replace_labels([a._labels[0]], [new])
+            H.end('replace_labels', [call('replace_label', a=[i], res='a')], new_arrs=[r])
         else:
             self.inplace_target = i
-            a.ireplace_label(a._labels[0], new)
-            H.end('ireplace_label', [call('ilabels', a=[i])], target=i)
+            v = rng.choice(['ireplace_label', 'ireplace_labels', 'iset_leg_labels', 'idrop_labels'])
+            if v == 'ireplace_label':
+                a.ireplace_label(a._labels[0], new)
+            elif v == 'ireplace_labels':
+                a.ireplace_labels([a._labels[0]], [new])
+            elif v == 'iset_leg_labels':
+                mine = [new + '_%d' % k for k in range(a.rank)]
+                a.iset_leg_labels(mine)
+                mine[0] = 'caller-edit'            # the caller's list must not be the tensor's list
+            else:
+                a.idrop_labels([0] if rng.random() < 0.5 else None)
+            H.end(v, [call('ilabels', a=[i])], target=i)
 
     def op_neg(self):
         H = self.H
@@ -649,7 +698,7 @@ class Walk:
         i = self.pick()
         s = rng.choice([2.0, -1.0, 0.5, 0.0, 1j])
         H.begin()
-        r = H.A[i] * s if rng.random() < 0.5 else s * H.A[i]
+        r = (H.A[i] / 2.0 if s == 0.5 else H.A[i] * s) if rng.random() < 0.5 else s * H.A[i]
         H.end('mul', [call('deep_fresh', a=[i], n=[dcode(r.dtype)], l=[keys_of(r)], b=[r._qdata_sorted], res='a')],
               new_arrs=[r], deep=0)
 
@@ -693,6 +742,8 @@ class Walk:
             calls.append(call('iadd', a=[i, oref], n=[-1], b=[conv]))
         if rng.random() < 0.5 and p == 1.0:
             a += b
+        elif rng.random() < 0.5 and p == -1.0:
+            a -= b
         else:
             a.iadd_prefactor_other(p, b)
         calls[-1]['n'] = [dcode(a.dtype)]
@@ -709,7 +760,10 @@ class Walk:
         H.begin()
         if s != 0.0 and self.cy and not conv:
             calls.append(self.resort_call(i, a, False, True))
-        a *= s
+        if s == 0.5 and rng.random() < 0.5:
+            a /= 2.0
+        else:
+            a *= s
         # (the dtype actually obtained is read off: on a tensor without blocks the two kernels differ — the Python
         #  iunary_blockwise keeps the dtype, the compiled version promotes it; that is C04's business)
         if s == 0.0:
@@ -1028,12 +1082,287 @@ class Walk:
         H.A[i].isort_qdata()
         H.end('isort_qdata', [call('resort', a=[i], b=[True, False], l=[[]])])
 
+    # ----- coverage round: views / observers / constructors from caller-owned data / remaining public functions
+    def observed_resort(self, i, old_list, old_blocks, was_sorted):
+        """model call for what a function did to its operand #i besides its job (isort_qdata / _imake_contiguous): read off"""
+        a = self.H.A[i]
+        if a._data is old_list:
+            return []
+        flags = [int(any(base_of(t) is base_of(o) for t in a._data)) for o in old_blocks]
+        return [call('resort', a=[i], b=[bool(a._qdata_sorted and not was_sorted), True], l=[flags])]
+
+    def op_observers(self):
+        """functions that only read: nothing may change; what they return must not alias the tensor (except get_block)"""
+        H, rng = self.H, self.rng
+        i = self.pick()
+        a = H.A[i]
+        H.begin()
+        old_list, old_blocks, was_sorted = a._data, list(a._data), bool(a._qdata_sorted or len(a._qdata) < 2)
+        d = a.to_ndarray()
+        d[...] = d + 7.0                       # the caller may do what it wants with the result
+        lab = a.get_leg_labels()
+        lab[:] = ['zz'] * len(lab)
+        a.norm()
+        a.norm(np.inf)
+        str(a)
+        repr(a)
+        a.sparse_stats()
+        a.is_completely_blocked()
+        a.size, a.ndim, a.stored_blocks
+        self.npc.norm(a, 1)
+        if a.stored_blocks:
+            blk = a.get_block(a._qdata[0])       # documented: the block itself
+            if blk is not a._data[0]:
+                H.oracle.append(('c03.get_block.not-the-stored-block', 'get_block(qindices) did not return the stored block'))
+            try:
+                a.get_block(a._qdata[0] * 0)         # other qindices: None, or IndexError when incompatible with qtotal
+            except IndexError:
+                pass
+        for blk, slices, charges, qinds in a:    # __iter__
+            pass
+        a.get_leg_index(0), a.get_leg_indices(list(range(a.rank))), a.has_label('a'), a.get_leg(0)
+        try:
+            if a.rank >= 2:
+                H.tmp_keep.append(a.make_pipe([0, 1]))
+        except ValueError:
+            pass
+        try:
+            a == a                               # __eq__: (self - other).norm
+        except Exception:
+            pass
+        H.end('observers', self.observed_resort(i, old_list, old_blocks, was_sorted))
+
+    def op_add_leg(self):
+        H, rng = self.H, self.rng
+        i = self.pick(lambda a: a.rank < 4)
+        a = H.A[i]
+        gs = [k for k, l in enumerate(H.G) if l.chinfo == a.chinfo and l.ind_len > 0]
+        if not gs:
+            raise Skip()
+        gi = rng.choice(gs)
+        leg = H.G[gi]
+        ax = rng.randrange(a.rank + 1)
+        idx = rng.randrange(leg.ind_len)
+        lab = None if any(x is None for x in a._labels) else 'n%d' % len(H.A)
+        H.begin()
+        r = a.add_leg(leg, idx, ax, lab)
+        lay = [4 * x for x in range(ax)] + [2] + [4 * x for x in range(ax, a.rank)]
+        H.end('add_leg', [call('fresh', a=[i], g=[gi], n=[dcode(r.dtype)], l=[lay, keys_of(r), []], b=[False, r._qdata_sorted], res='a')],
+              new_arrs=[r], deep=0)
+
+    def op_from_ndarray(self):
+        """constructors given a caller-owned ndarray: the ndarray must stay what it was and must not be aliased"""
+        H, rng = self.H, self.rng
+        trivial = rng.random() < 0.5
+        H.begin()
+        if trivial:
+            shape = [rng.choice([1, 2, 3]) for _ in range(rng.choice([1, 2, 3]))]
+            x = self.rs.randint(1, 4, size=shape).astype(np.float64)
+            x0 = x.copy()
+            labels = rng.choice([None, ['a', 'b', 'c'][:len(shape)]])
+            r = self.npc.Array.from_ndarray_trivial(x, labels=labels)
+            name = 'from_ndarray_trivial'
+            c = call('fresh', a=[], n=[dcode(r.dtype)], l=[[4 * k + 2 for k in range(r.rank)], keys_of(r), [lflag(l) for l in r.legs]],
+                     b=[False, r._qdata_sorted], res='a')
+        else:
+            i = self.pick()
+            a = H.A[i]
+            x = a.to_ndarray()
+            x0 = x.copy()
+            r = self.npc.Array.from_ndarray(x, a.legs, dtype=a.dtype, qtotal=a.qtotal, labels=a.get_leg_labels())
+            name = 'from_ndarray'
+            c = call('fresh', a=[i], n=[dcode(r.dtype)], l=[[4 * k for k in range(r.rank)], keys_of(r), []],
+                     b=[False, r._qdata_sorted], res='a')
+        H.tmp_keep.append(x)
+        if not np.array_equal(x, x0):
+            H.oracle.append((f'c03.{name}.caller-ndarray-changed', f'{name}(data_flat, ...) changed the ndarray it was given'))
+        before = Hist.obs_arr(r)
+        x += 1.0                                  # the caller re-uses its array
+        if Hist.obs_arr(r) != before:
+            H.oracle.append((f'c03.{name}.aliases-caller-ndarray',
+                             f'step {len(H.ops)}: modifying the ndarray given to {name} afterwards changed the tensor'))
+        x1 = x.copy()
+        if r.stored_blocks:
+            idx = tuple(int(l.slices[q]) for l, q in zip(r.legs, r._qdata[0]))
+            r[idx] = r[idx] + 1.0                 # in-place method on the result (existing block: no structural change)
+            if not np.array_equal(x, x1):
+                H.oracle.append((f'c03.{name}.result-aliases-caller-ndarray',
+                                 f'step {len(H.ops)}: element assignment on the result of {name} changed the caller\'s ndarray'))
+        H.end(name, [c], new_arrs=[r], deep=0)
+
+    def op_permute(self):
+        H, rng = self.H, self.rng
+        i = self.pick(lambda a: not any(isinstance(l, H.LegPipe) for l in a.legs))
+        a = H.A[i]
+        ax = rng.randrange(a.rank)
+        perm = list(range(a.shape[ax]))
+        rng.shuffle(perm)
+        H.begin()
+        r = a.permute(perm, ax)
+        lay = [2 if k == ax else 4 * k for k in range(a.rank)]
+        H.end('permute', [call('fresh', a=[i], n=[dcode(r.dtype)], l=[lay, keys_of(r), [lflag(r.legs[ax])]], b=[True, r._qdata_sorted], res='a')],
+              new_arrs=[r])
+
+    def op_complex_conj(self):
+        H = self.H
+        i = self.pick()
+        H.begin()
+        r = H.A[i].complex_conj()
+        H.end('complex_conj', [call('neg', a=[i], res='a')], new_arrs=[r])
+
+    def op_binary(self):
+        H, rng = self.H, self.rng
+        i = self.pick()
+        j = self.partner(i)
+        a, b = H.A[i], H.A[j]
+        H.begin()
+        calls = self.pending = [call('resort', a=[j], b=[True, False], l=[[]])]
+        r = a.binary_blockwise(np.add, b)
+        shared = base_of(r._qdata) is base_of(a._qdata)
+        calls.append(call('binary', a=[i], n=[dcode(r.dtype)], l=[keys_of(r)], b=[shared], res='a'))
+        H.end('binary_blockwise', calls, new_arrs=[r])
+
+    def op_as_completely_blocked(self):
+        H, rng = self.H, self.rng
+        i = self.pick()
+        a = H.A[i]
+        calls = self.pending = []
+        H.begin()
+        if a.stored_blocks > 1 and not all(l.is_blocked() for l in a.legs):
+            calls.append(self.resort_call(i, a, False, True))
+        enc, r = a.as_completely_blocked()
+        if r is a:
+            H.end('as_completely_blocked.self', [])
+            return
+        lay = [(4 * enc.index(k) + 2) if k in enc else 4 * k for k in range(a.rank)]
+        flags = [lflag(r.legs[k], True) for k in enc]
+        calls.append(call('fresh', a=[i], n=[dcode(r.dtype)], l=[lay, keys_of(r), flags] + [[4 * k] for k in enc],
+                          b=[False, r._qdata_sorted], res='a'))
+        H.end('as_completely_blocked', calls, new_arrs=[r], deep=0)
+
+    def op_grid_concat(self):
+        H, rng = self.H, self.rng
+        i = self.pick(lambda a: a.rank >= 2 and not any(isinstance(l, H.LegPipe) for l in a.legs))
+        a = H.A[i]
+        ax0, ax1 = rng.sample(range(a.rank), 2)
+
+        def ok(b):
+            if b.rank != a.rank or b.chinfo != a.chinfo or np.any(b.qtotal != a.qtotal):
+                return False
+            try:
+                for k in range(a.rank):
+                    if k != ax1:
+                        a.legs[k].test_equal(b.legs[k])
+                return b.legs[ax1].qconj == a.legs[ax1].qconj
+            except ValueError:
+                return False
+        js = [j for j, b in enumerate(H.A) if self.usable(b) and ok(b)]
+        j = rng.choice(js)
+        b = H.A[j]
+        H.begin()
+        r = self.npc.grid_concat([[a, b], [a, b]], [ax0, ax1], copy=True)
+        lay = [4 * k for k in range(a.rank)]
+        lay[ax0], lay[ax1] = 2, 6
+        H.end('grid_concat', [call('fresh', a=[i, j], n=[dcode(r.dtype)], l=[lay, keys_of(r), [lflag(r.legs[ax0]), lflag(r.legs[ax1])]],
+                                   b=[True, r._qdata_sorted], res='a')], new_arrs=[r])
+
+    def op_linalg(self):
+        """factorisations and matrix functions are not in place: operands unchanged (they may be re-sorted / made contiguous)"""
+        H, rng = self.H, self.rng
+        i = self.pick(lambda a: a.rank == 2)
+        a = H.A[i]
+        f = rng.choice(['svd', 'qr', 'lq', 'eigh', 'eig', 'expm', 'pinv', 'polar', 'eigvalsh', 'eigvals', 'eigvals', 'speigs', 'speigs', 'inner', 'trace', 'outer_self', 'matvec'])
+        H.begin()
+        old_list, old_blocks, was_sorted = a._data, list(a._data), bool(a._qdata_sorted or len(a._qdata) < 2)
+        self.pending = []
+        npc = self.npc
+        try:
+            if f == 'svd':
+                out = npc.svd(a, inner_labels=['x', 'y'])
+            elif f == 'qr':
+                out = npc.qr(a, inner_labels=['x', 'y'])
+            elif f == 'lq':
+                out = npc.lq(a, inner_labels=['x', 'y'])
+            elif f == 'inner':
+                out = npc.inner(a, a.conj(), axes='range')
+            elif f == 'trace':
+                a.legs[0].test_contractible(a.legs[1])
+                out = npc.trace(a)
+            elif f == 'outer_self':
+                out = npc.outer(a, a)
+            elif f == 'speigs':
+                a.legs[0].test_contractible(a.legs[1])
+                out = npc.speigs(a, a.legs[0].charges[0] * 0, 1) if a.shape[0] > 2 else None
+            elif f == 'matvec':
+                v = npc.Array.from_func(np.ones, [a.legs[1].conj()], dtype=a.dtype)
+                out = a.matvec(v)
+            else:
+                a.legs[0].test_contractible(a.legs[1])
+                out = getattr(npc, f)(a)
+        except Exception:
+            if 'tenpy' not in traceback.format_exc():
+                raise
+            H.end('rejected.linalg.' + f, self.observed_resort(i, old_list, old_blocks, was_sorted))
+            return
+        H.tmp_keep.append(out)
+        H.end('linalg.' + f, self.observed_resort(i, old_list, old_blocks, was_sorted))
+
+    def op_leg_from(self):
+        """LegCharge constructors given caller-owned arrays: the leg must not alias them"""
+        H, rng = self.H, self.rng
+        i = rng.randrange(len(H.G))
+        l = H.G[i]
+        if isinstance(l, H.LegPipe):
+            raise Skip()
+        kind = rng.choice(['from_qflat', 'from_qind', 'from_qdict', 'from_trivial', 'init', 'from_add_charge', 'from_drop_charge',
+                           'from_change_charge'])
+        LC = self.ch.LegCharge
+        H.begin()
+        mine = []
+        if kind == 'from_qflat':
+            q = l.to_qflat().copy()
+            mine = [q]
+            r = LC.from_qflat(l.chinfo, q, l.qconj)
+        elif kind == 'from_qind':
+            sl, chg = l.slices.copy(), l.charges.copy()
+            mine = [sl, chg]
+            r = LC.from_qind(l.chinfo, sl, chg, l.qconj)
+        elif kind == 'init':
+            sl, chg = l.slices.copy(), l.charges.copy()
+            mine = [sl, chg]
+            r = LC(l.chinfo, sl, chg, l.qconj)
+        elif kind == 'from_qdict':
+            if not l.is_blocked():
+                raise Skip()
+            r = LC.from_qdict(l.chinfo, l.to_qdict(), l.qconj)
+        elif kind == 'from_trivial':
+            r = LC.from_trivial(max(1, l.ind_len), l.chinfo, l.qconj)
+        elif kind == 'from_add_charge':
+            other = LC.from_qflat(self.ch.ChargeInfo([2]), [[k % 2] for k in range(l.ind_len)], l.qconj)
+            r = LC.from_add_charge([l, other])
+        elif kind == 'from_drop_charge':
+            if l.chinfo.qnumber < 1:
+                raise Skip()
+            r = LC.from_drop_charge(l, 0)
+        else:
+            if l.chinfo.qnumber < 1:
+                raise Skip()
+            r = LC.from_change_charge(l, 0, rng.choice([1, 2, 3]))
+        mine0 = [m.copy() for m in mine]
+        H.note_leg(r)
+        for m in mine:
+            m += 1                                 # the caller re-uses its arrays: the new leg is watched by the leg oracle
+        H.tmp_keep.append(mine)
+        H.end('leg.' + kind, [call('leg.new', b=[r.qconj > 0, r.sorted, r.bunched], res='g')], new_legs=[r])
+
     OPS = [('copy', 10), ('transpose', 5), ('conj', 5), ('iconj', 3), ('add_trivial_leg', 4), ('take_slice', 4),
            ('scale_axis', 6), ('astype', 4), ('label', 3), ('neg', 2), ('gauge', 3), ('charge', 5), ('tensordot', 8),
            ('outer', 2), ('trace', 2), ('add', 5), ('mul', 3), ('iadd', 6), ('iscale', 4), ('ipurge', 3), ('iproject', 4),
            ('setitem_scalar', 6), ('setitem_slice', 3), ('itranspose', 6), ('combine', 4), ('split', 4),
            ('sort_legcharge', 4), ('getitem', 3), ('squeeze', 2), ('extend', 2), ('concat', 3), ('ibinary', 2),
-           ('isort', 2), ('leg', 6), ('new', 3)]
+           ('isort', 2), ('leg', 6), ('new', 3),
+           ('observers', 3), ('add_leg', 2), ('from_ndarray', 2), ('permute', 2), ('complex_conj', 1), ('binary', 2),
+           ('as_completely_blocked', 2), ('grid_concat', 1), ('linalg', 4), ('leg_from', 2)]
 
     # in-place methods that write into existing containers of their target (block memory, `_data` list, legs/labels
     # lists): what makes an undocumented alias between a result and its operand visible
@@ -1539,6 +1868,501 @@ def run_mpo(case, npc, cy):
 
 
 
+# ------------------------------------------------------------------------------------------------------------------
+# coverage round: every MPS/MPO getter, derivation, constructor and in-place method against a set of live objects
+
+
+def obs_mps_full(p):
+    def arr(x):
+        if x is None:
+            return None
+        if isinstance(x, np.ndarray):
+            return (x.shape, np.round(x, 10).tobytes())
+        return Hist.obs_arr(x)
+    def tensor(B):
+        # (the order in which a stored tensor keeps its legs is not an observable of the MPS: everything accesses legs
+        #  by label, and e.g. TransferMatrix / group_sites re-order the stored tensors' legs in place)
+        try:
+            B = B.transpose(p._B_labels)
+        except Exception:
+            pass
+        return Hist.obs_arr(B)
+    return dict(B=[tensor(B) for B in p._B], S=[arr(x) for x in p._S], form=[tuple(f) if f is not None else None for f in p.form],
+                norm=repr(round(float(np.real(p.norm)), 10)), bc=p.bc, L=p.L, sites=[id(x) for x in p.sites], grouped=p.grouped,
+                chi=[int(c) for c in p.chi], dtype=str(p.dtype))
+
+
+def run_net(case, npc, cy):
+    from tenpy.networks.mps import MPS, MPSEnvironment, TransferMatrix
+    from tenpy.networks.mpo import MPO, MPOEnvironment
+    from tenpy.networks.site import SpinHalfSite
+    from tenpy.models.spins import SpinChain
+    rng = random.Random(case['seed'])
+    oracle, ops_done = [], []
+    conserve = rng.choice(['Sz', 'Sz', 'parity', None, None])
+    bc = rng.choice(['finite', 'finite', 'infinite'])
+    L = rng.choice([2, 3, 4]) if bc == 'finite' else rng.choice([2, 4])
+    M = SpinChain(dict(L=L, S=0.5, Jx=1., Jy=1., Jz=0.7, hz=0.3 if conserve != 'parity' else 0., bc_MPS=bc, conserve=conserve,
+                       sort_mpo_legs=rng.random() < 0.5))
+    sites = M.lat.mps_sites()
+    site = sites[0]
+    Hm = M.H_MPO
+    live_s, live_o = [], []
+
+    def add_s(name, p):
+        live_s.append([name, p, obs_mps_full(p)])
+        return p
+
+    def add_o(name, H):
+        live_o.append([name, H, obs_mpo(H, npc)])
+        return H
+
+    def check(step, allowed=()):
+        for recs, obs in ((live_s, obs_mps_full), (live_o, lambda H: obs_mpo(H, npc))):
+            for rec in recs:
+                name, X, snap = rec
+                try:
+                    now = obs(X)
+                except Exception as e:
+                    now = {'ERR': type(e).__name__}
+                if any(X is a for a in allowed):
+                    rec[2] = now
+                elif now != snap:
+                    keys = [k for k in now if now.get(k) != snap.get(k)]
+                    extra = ''
+                    if 'B' in keys and 'B' in snap and len(now['B']) == len(snap['B']):
+                        comp = ('dense', 'legs', 'labels', 'qtotal', 'dtype')
+                        extra = ' ' + str([(i, [c for c, x, y in zip(comp, a, b) if x != y])
+                                           for i, (a, b) in enumerate(zip(now['B'], snap['B'])) if a != b])
+                    oracle.append((f'c03.net.{step}.other-object-changed', f'{step}: `{name}` changed in {keys}{extra}'))
+                    rec[2] = now
+
+    def tenpy_error():
+        return 'tenpy' in traceback.format_exc()
+
+    state = [rng.choice(['up', 'down']) for _ in range(L)]
+    if conserve == 'Sz' and bc == 'infinite':
+        state = ['up', 'down'] * (L // 2)
+    psi = MPS.from_product_state(sites, state, bc=bc, unit_cell_width=L)
+    # entangle through a few two-site gates so that bonds are non-trivial
+    try:
+        from tenpy.algorithms.tebd import TEBDEngine
+        eng = TEBDEngine(psi, M, dict(dt=0.2, N_steps=2, order=2, trunc_params=dict(chi_max=4, svd_min=1e-10)))
+        eng.run_evolution(2, 0.2)
+    except Exception:
+        if not tenpy_error():
+            raise
+    # deliberate behaviour with its own signature: the environment constructor canonicalises a non-canonical iMPS ket
+    # IN PLACE (with a warning) when bra is ket
+    if bc == 'infinite':
+        try:
+            q = psi.copy()
+            if np.linalg.norm(q.norm_test()) > 1.e-10:
+                ref = obs_mps_full(q)
+                MPOEnvironment(q, Hm, q)
+                if obs_mps_full(q) != ref:
+                    oracle.append(('c03.net.MPOEnvironment.init-canonicalizes-noncanonical-ket',
+                                   'MPOEnvironment(psi, H, psi) on an infinite MPS with norm error > 1e-10 calls '
+                                   'psi.canonical_form() on its argument (B and S tensors change; a warning is issued)'))
+                ops_done.append('net.MPOEnvironment.noncanonical')
+        except Exception:
+            if not tenpy_error():
+                raise
+        psi.canonical_form()
+    add_s('psi', psi)
+    add_o('H', Hm)
+    H_before = obs_mpo(Hm, npc)
+    ops_done.append('net.setup')
+
+    # ---------------- observers: nothing may change; returned objects are the caller's
+    def observers(p):
+        i = rng.randrange(p.L)
+        out = []
+        calls = [
+            ('get_SL', lambda: p.get_SL(i)), ('get_SR', lambda: p.get_SR(i)),
+            ('get_B.copy', lambda: p.get_B(i, form=rng.choice(['A', 'B', 'C', None]), copy=True)),
+            ('get_theta', lambda: p.get_theta(i if p.finite and i < p.L - 1 or not p.finite else 0, 2 if p.L >= 2 else 1)),
+            ('get_theta1', lambda: p.get_theta(i, 1, formL=rng.choice([0., 1.]), formR=rng.choice([0., 1.]))),
+            ('expectation_value', lambda: p.expectation_value('Sz')),
+            ('expectation_value_multi', lambda: p.expectation_value_multi_sites(['Sz', 'Sz'], 0) if p.L >= 2 else None),
+            ('correlation_function', lambda: p.correlation_function('Sz', 'Sz')),
+            ('expectation_value_term', lambda: p.expectation_value_term([('Sz', 0), ('Sz', 1)])),
+            ('entanglement_entropy', lambda: p.entanglement_entropy()),
+            ('entanglement_entropy_n2', lambda: p.entanglement_entropy(n=2)),
+            ('entanglement_spectrum', lambda: p.entanglement_spectrum(by_charge=True)),
+            ('entanglement_entropy_segment', lambda: p.entanglement_entropy_segment([0], None)),
+            ('get_rho_segment', lambda: p.get_rho_segment([0])),
+            ('mutinf_two_site', lambda: p.mutinf_two_site(max_range=2)),
+            ('overlap', lambda: p.overlap(p)),
+            ('norm_test', lambda: p.norm_test()),
+            ('get_total_charge', lambda: p.get_total_charge()),
+            ('probability_per_charge', lambda: p.probability_per_charge(min(1, p.L - 1))),
+            ('average_charge', lambda: p.average_charge(min(1, p.L - 1))),
+            ('charge_variance', lambda: p.charge_variance(min(1, p.L - 1))),
+            ('sample_measurements', lambda: p.sample_measurements(rng=np.random.default_rng(1))),
+            ('correlation_length', lambda: p.correlation_length() if not p.finite else None),
+            ('str', lambda: str(p)),
+            ('dim', lambda: (p.dim, p.chi, p.nontrivial_bonds)),
+            ('H.expectation_value', lambda: Hm.expectation_value(p) if p.L == Hm.L and p.grouped == 1 else None),
+            ('H.variance', lambda: Hm.variance(p) if p.L == Hm.L and p.finite and p.grouped == 1 else None),
+            ('H.prefactor', lambda: Hm.prefactor(0, ['Sz', 'Sz']) if Hm.L >= 2 else None),
+            ('H.to_TermList', lambda: Hm.to_TermList(['Id', 'Sz', 'Sp', 'Sm']) if Hm.finite else None),
+            ('H.is_hermitian', lambda: Hm.is_hermitian()),
+            ('H.is_equal', lambda: Hm.is_equal(Hm)),
+            ('H.get_W', lambda: Hm.get_W(0, copy=True)),
+            ('H.chi', lambda: (Hm.chi, Hm.get_IdL(0), Hm.get_IdR(Hm.L - 1))),
+            ('H.expectation_value_TM', lambda: Hm.expectation_value_TM(p) if not p.finite and p.L == Hm.L and p.grouped == 1 else None),
+            ('H.expectation_value_power', lambda: Hm.expectation_value_power(p) if p.finite and p.L == Hm.L and p.grouped == 1 else None),
+            ('expectation_value_terms_sum', lambda: p.expectation_value_terms_sum(Hm.to_TermList(['Id', 'Sz', 'Sp', 'Sm']))
+             if p.finite and p.grouped == 1 and p.L == Hm.L else None),
+            ('term_correlation_function_right', lambda: p.term_correlation_function_right([('Sz', 0)], [('Sz', 0)]) if p.grouped == 1 else None),
+            ('entanglement_entropy_segment2', lambda: p.entanglement_entropy_segment2([0]) if p.finite else None),
+            ('overlap_translate_finite', lambda: p.overlap_translate_finite(p, shift=1) if p.finite else None),
+            ('correlation_length_charge_sectors', lambda: p.correlation_length_charge_sectors() if not p.finite else None),
+            ('TransferMatrix', lambda: TransferMatrix(p, p, charge_sector=0).eigenvectors(num_ev=1) if not p.finite else None),
+        ]
+        rng.shuffle(calls)
+        for name, f in calls[:10]:
+            try:
+                r = f()
+            except Exception:
+                if not tenpy_error():
+                    raise
+                ops_done.append('net.rejected.' + name)
+                check(name)
+                continue
+            ops_done.append('net.' + name)
+            check(name)
+            # what was returned belongs to the caller (except the documented views get_SL/get_SR/get_B(copy=False))
+            if name not in ('get_SL', 'get_SR'):
+                try:
+                    for x in (r if isinstance(r, (list, tuple)) else [r]):
+                        if isinstance(x, npc.Array) and x.stored_blocks:
+                            x *= 3.0
+                            x._data[0][...] = 5.0
+                        elif isinstance(x, np.ndarray) and x.dtype.kind in 'fc' and x.flags.writeable:
+                            x += 1.0
+                except Exception:
+                    pass
+                check(name + '.returned-object-aliases')
+
+    observers(psi)
+
+    # ---------------- derivations (new objects) and constructors given caller-owned objects
+    def derive(p):
+        kind = rng.choice(['copy', 'add', 'get_grouped_mps', 'extract_segment', 'extract_enlarged_segment', 'extract_enlarged_segment',
+                           'spatial_inversion', 'from_Bflat', 'from_product_state',
+                           'from_lat_product_state', 'from_singlets', 'from_full', 'ctor', 'from_desired_bond_dimension',
+                           'from_random_unitary_evolution', 'project_onto_charge_sector', 'H.apply_naively'])
+        if kind == 'copy':
+            return kind, p.copy()
+        if kind == 'add':
+            return kind, p.add(p, 0.6, 0.8)
+        if kind == 'get_grouped_mps':
+            return kind, p.get_grouped_mps(2)
+        if kind == 'extract_segment':
+            # also the full range (nothing to cut off)
+            a, b = (0, p.L - 1) if rng.random() < 0.5 else (0, max(0, p.L - 2))
+            return kind, p.extract_segment(a, b)
+        if kind == 'extract_enlarged_segment':
+            if p.grouped > 1 or p.L < 2:
+                return kind, None
+            seg = add_s(f'segment({p.bc})', p.extract_segment(0, p.L - 1))
+            check('derive.extract_segment')
+            add = 0 if p.finite else rng.choice([0, 1])
+            big, f, l = seg.extract_enlarged_segment(p, p, 0, p.L - 1, add_unitcells=add)
+            return kind, big
+        if kind == 'spatial_inversion':
+            q = p.copy()
+            return kind, q.spatial_inversion()
+        if kind == 'from_Bflat':
+            Bf = [np.ones((2, 1, 1)) * (k + 1.) for k in range(p.L)]
+            Bf0 = [x.copy() for x in Bf]
+            q = MPS.from_Bflat([SpinHalfSite(None)] * p.L, Bf, bc='finite', unit_cell_width=p.L)
+            if any(not np.array_equal(x, y) for x, y in zip(Bf, Bf0)):
+                oracle.append(('c03.net.from_Bflat.argument-changed', 'from_Bflat changed the arrays it was given'))
+            ref = obs_mps_full(q)
+            for x in Bf:
+                x += 1.0
+            if obs_mps_full(q) != ref:
+                oracle.append(('c03.net.from_Bflat.aliases-argument', 'modifying the arrays given to from_Bflat changed the MPS'))
+            return kind, None
+        if kind == 'from_product_state':
+            st = [rng.choice(['up', 'down']) for _ in range(p.L)]
+            st0 = list(st)
+            q = MPS.from_product_state(sites[:1] * p.L, st, bc=p.bc, unit_cell_width=p.L)
+            if st != st0:
+                oracle.append(('c03.net.from_product_state.argument-changed', 'from_product_state changed the list it was given'))
+            return kind, q if p.grouped == 1 else None
+        if kind == 'from_lat_product_state':
+            return kind, MPS.from_lat_product_state(M.lat, [['up']] if L % 2 else [['up'], ['down']])
+        if kind == 'from_singlets':
+            if p.L < 2:
+                return kind, None
+            pairs = [(0, 1)]
+            q = MPS.from_singlets(SpinHalfSite(conserve), p.L if p.L % 2 == 0 else 2, pairs, bc='finite', unit_cell_width=p.L if p.L % 2 == 0 else 2)
+            if pairs != [(0, 1)]:
+                oracle.append(('c03.net.from_singlets.argument-changed', 'from_singlets changed the list it was given'))
+            return kind, None
+        if kind == 'from_full':
+            if not p.finite or p.L > 4 or p.grouped > 1:
+                return kind, None
+            th = p.get_theta(0, p.L)
+            t0 = Hist.obs_arr(th)
+            q = MPS.from_full(p.sites, th, bc='finite', unit_cell_width=p.L)
+            if Hist.obs_arr(th) != t0:
+                oracle.append(('c03.net.from_full.argument-changed', 'from_full changed the tensor it was given'))
+            return kind, q
+        if kind == 'ctor':
+            Bs = [p.get_B(k, form=None, copy=False) for k in range(p.L)]     # the stored tensors themselves
+            Ss = list(p._S)
+            form = [None if f is None else tuple(f) for f in p.form]
+            q = MPS(p.sites, Bs, Ss, p.bc, form, p.norm, unit_cell_width=p.unit_cell_width, understood_shift_symmetry=True)
+            return kind, q
+        if kind == 'from_desired_bond_dimension':
+            if conserve is not None:
+                return kind, None
+            return kind, MPS.from_desired_bond_dimension(sites, 2, bc=bc, unit_cell_width=L)
+        if kind == 'from_random_unitary_evolution':
+            st = ['up', 'down'] * (L // 2) + ['up'] * (L % 2)
+            return kind, MPS.from_random_unitary_evolution(sites, 2, st, bc=bc)
+        if kind == 'project_onto_charge_sector':
+            if conserve != 'Sz' or not p.finite:
+                return kind, None
+            pl = np.ones((L, 2)) / np.sqrt(2.)
+            pl0 = pl.copy()
+            r = MPS.project_onto_charge_sector(sites, pl, (0,) if L % 2 == 0 else (1,), unit_cell_width=L)
+            if not np.array_equal(pl, pl0):
+                oracle.append(('c03.net.project_onto_charge_sector.argument-changed', 'project_onto_charge_sector changed its p_state_list'))
+            return kind, r
+        q = p.copy()
+        if q.L != Hm.L or q.grouped != 1:
+            return kind, None
+        Hm.apply_naively(q)
+        return kind, q
+
+    def inplace(q, dkind):
+        """in-place methods of the derived object: only it may change"""
+        methods = ['apply_local_op', 'apply_local_op_unitary', 'apply_product_op', 'apply_local_term', 'swap_sites', 'permute_sites',
+                   'canonical_form', 'canonical_form_qr', 'group_sites', 'group_split', 'compress_svd', 'compress', 'H.apply', 'H.apply_zipup',
+                   'enlarge_mps_unit_cell', 'roll_mps_unit_cell', 'enlarge_chi', 'perturb', 'gauge_total_charge', 'set_B', 'set_SL',
+                   'set_SR', 'convert_form', 'set_svd_theta', 'spatial_inversion', 'increase_L']
+        for m in rng.sample(methods, 4):
+            plain = q.L == Hm.L and q.grouped == 1 and len(q.sites) and q.sites[0] is site
+            try:
+                if m == 'apply_local_op':
+                    q.apply_local_op(rng.randrange(q.L), 'Sz' if plain else q.sites[0].opnames.copy().pop(), unitary=False)
+                elif m == 'apply_local_op_unitary':
+                    if not plain:
+                        continue
+                    q.apply_local_op(rng.randrange(q.L), site.get_op('Sz') * 2.0, unitary=True, renormalize=True)
+                elif m == 'apply_product_op':
+                    if not plain:
+                        continue
+                    q.apply_product_op([site.get_op('Sz') * 2.0] * q.L, unitary=True)
+                elif m == 'apply_local_term':
+                    if not plain or q.L < 2:
+                        continue
+                    q.apply_local_term([('Sz', 0), ('Sz', 1)], canonicalize=q.finite)
+                elif m == 'swap_sites':
+                    if q.L < 2:
+                        continue
+                    q.swap_sites(rng.randrange(q.L - 1), swap_op=None)
+                elif m == 'permute_sites':
+                    if q.L < 2:
+                        continue
+                    perm = list(range(q.L))
+                    rng.shuffle(perm)
+                    q.permute_sites(perm, swap_op=None)
+                elif m == 'canonical_form':
+                    q.canonical_form(renormalize=rng.random() < 0.5)
+                elif m == 'canonical_form_qr':
+                    if q.finite:
+                        q.canonical_form_finite(renormalize=False, envs_to_update=None)
+                    else:
+                        q.canonical_form_infinite2()
+                elif m == 'group_sites':
+                    if q.L % 2 or q.grouped > 1:
+                        continue
+                    q.group_sites(2)
+                elif m == 'group_split':
+                    if q.grouped == 1:
+                        continue
+                    q.group_split()
+                elif m == 'compress_svd':
+                    q.compress_svd({'chi_max': 3})
+                elif m == 'compress':
+                    q.compress({'compression_method': 'SVD', 'trunc_params': {'chi_max': 3}})
+                elif m == 'H.apply':
+                    if not plain:
+                        continue
+                    Hm.apply(q, {'compression_method': rng.choice(['SVD', 'zip_up']), 'trunc_params': {'chi_max': 4}})
+                elif m == 'H.apply_zipup':
+                    if not plain:
+                        continue
+                    Hm.apply_zipup(q, {'trunc_params': {'chi_max': 4}})
+                elif m == 'enlarge_mps_unit_cell':
+                    if q.finite or q.L > 4:
+                        continue
+                    q.enlarge_mps_unit_cell(2)
+                elif m == 'roll_mps_unit_cell':
+                    if q.finite:
+                        continue
+                    q.roll_mps_unit_cell(1)
+                elif m == 'enlarge_chi':
+                    q.enlarge_chi([c + 1 for c in q.chi])
+                elif m == 'perturb':
+                    q.perturb({'N_steps': 1, 'trunc_params': {'chi_max': 4}}, close_1=True, canonicalize=True)
+                elif m == 'gauge_total_charge':
+                    q.gauge_total_charge()
+                elif m == 'set_B':
+                    k = rng.randrange(q.L)
+                    q.set_B(k, q.get_B(k, form=None, copy=True) * 2.0, form=None)
+                elif m == 'set_SL':
+                    k = rng.randrange(q.L)
+                    q.set_SL(k, np.array(q.get_SL(k)) * 0.5)
+                elif m == 'set_SR':
+                    k = rng.randrange(q.L)
+                    q.set_SR(k, np.array(q.get_SR(k)) * 0.5)
+                elif m == 'convert_form':
+                    q.convert_form(rng.choice(['A', 'B', 'C']))
+                elif m == 'set_svd_theta':
+                    if q.L < 2 or q.grouped > 1:
+                        continue
+                    th = q.get_theta(0, 2).combine_legs([['vL', 'p0'], ['p1', 'vR']], qconj=[+1, -1])
+                    q.set_svd_theta(0, th, {'chi_max': 3})
+                elif m == 'spatial_inversion':
+                    q.spatial_inversion()
+                else:
+                    if q.finite or not hasattr(q, 'increase_L'):
+                        continue
+                    q.increase_L(q.L + 1)
+            except Exception:
+                if not tenpy_error():
+                    raise
+                ops_done.append('net.rejected.' + m)
+            else:
+                ops_done.append('net.' + m)
+            n0 = len(oracle)
+            check(f'{dkind}.{m}', allowed=[q])
+            for k in range(n0, len(oracle)):
+                oracle[k] = (f'c03.net.{dkind}.{m}.original-changed', oracle[k][1])
+
+    for _ in range(case.get('nderive', 5)):
+        name0, p, _ = rng.choice(live_s[:3])
+        try:
+            dkind, q = derive(p)
+        except Exception:
+            if not tenpy_error():
+                raise
+            ops_done.append('net.rejected.derive')
+            check('derive')
+            continue
+        ops_done.append('net.derive.' + dkind)
+        check('derive.' + dkind)
+        if q is None:
+            continue
+        owner = next((n for n, X, _ in live_s if X is q), None)
+        if owner is not None:
+            # a function that is not in place handed back one of the live objects itself
+            ops_done.append('net.derive.' + dkind + '.returned-operand')
+            oracle.append((f'c03.net.{dkind}.returns-its-operand',
+                           f'{dkind}: the returned MPS IS the live object `{owner}` (not a copy): in-place methods on the '
+                           'result change the operand'))
+            continue
+        add_s(f'{dkind}({name0})', q)
+        inplace(q, dkind)
+        if rng.random() < 0.4:
+            observers(q)
+
+    # ---------------- environments hold references to psi / H: nothing they do may change them
+    try:
+        p = psi
+        env = MPSEnvironment(p, p)
+        for k in range(p.L):
+            env.get_LP(k, store=True)
+            env.get_RP(k, store=True)
+        LP = env.get_LP(p.L - 1)
+        LP *= 2.0                                   # the cached environment tensor, not part of psi
+        env.full_contraction(0)
+        env.expectation_value('Sz')
+        env.del_LP(p.L - 1)
+        env.del_RP(0)
+        env.set_LP(0, env.get_LP(0), 0)
+        env.get_initialization_data()
+        env.clear()
+        check('MPSEnvironment')
+        ops_done.append('net.MPSEnvironment')
+        if p.L == Hm.L:
+            e2 = MPOEnvironment(p, Hm, p)
+            for k in range(p.L):
+                e2.get_LP(k, store=True)
+                e2.get_RP(k, store=True)
+            e2.full_contraction(0)
+            RP = e2.get_RP(0)
+            RP *= 2.0
+            e2.del_RP(0)
+            e2.del_LP(p.L - 1)
+            e2.get_initialization_data()
+            e2.clear()
+            check('MPOEnvironment')
+            ops_done.append('net.MPOEnvironment')
+    except Exception:
+        if not tenpy_error():
+            raise
+        ops_done.append('net.rejected.environment')
+        check('environment')
+    # ---------------- remaining MPO constructors / derivations
+    try:
+        Wf = [Hm.get_W(k).to_ndarray() for k in range(Hm.L)] if False else None
+        U = Hm.make_U(0.05, rng.choice(['I', 'II']))
+        add_o('make_U', U)
+        check('make_U')
+        if Hm.finite:
+            d = Hm.distance(Hm) if hasattr(Hm, 'distance') else None
+            Hm.overlap(Hm)
+        check('H.overlap')
+        ops_done.append('net.mpo-derivations')
+    except Exception:
+        if not tenpy_error():
+            raise
+        ops_done.append('net.rejected.mpo-derivations')
+        check('mpo-derivations')
+    try:
+        Wflat = [Hm.get_W(k).transpose(['wL', 'wR', 'p', 'p*']).to_ndarray() for k in range(Hm.L)]
+        Wflat0 = [x.copy() for x in Wflat]
+        myIdL, myIdR = list(Hm.IdL), list(Hm.IdR)
+        Hw = add_o('from_Wflat', MPO.from_Wflat(sites, Wflat, bc=bc, IdL=myIdL, IdR=myIdR, unit_cell_width=L))
+        if any(not np.array_equal(x, y) for x, y in zip(Wflat, Wflat0)) or myIdL != list(Hm.IdL) or myIdR != list(Hm.IdR):
+            oracle.append(('c03.net.from_Wflat.argument-changed', 'MPO.from_Wflat changed the arrays / lists it was given'))
+        ref = obs_mpo(Hw, npc)
+        for x in Wflat:
+            x += 1.0
+        myIdL[0] = None
+        if obs_mpo(Hw, npc) != ref:
+            oracle.append(('c03.net.from_Wflat.aliases-argument', 'modifying the arrays / lists given to MPO.from_Wflat changed the MPO'))
+        check('from_Wflat')
+        ops_done.append('net.from_Wflat')
+    except Exception:
+        if not tenpy_error():
+            raise
+        ops_done.append('net.rejected.from_Wflat')
+    try:
+        coeff = np.array([0.5, 0.25] + [0.0] * (L - 2))[:L]
+        c0 = coeff.copy()
+        Wp = MPO.from_wavepacket(sites, coeff, 'Sz', unit_cell_width=L) if bc == 'finite' else None
+        if not np.array_equal(coeff, c0):
+            oracle.append(('c03.net.from_wavepacket.argument-changed', 'MPO.from_wavepacket changed its coefficient array'))
+        check('from_wavepacket')
+        ops_done.append('net.from_wavepacket')
+    except Exception:
+        if not tenpy_error():
+            raise
+        ops_done.append('net.rejected.from_wavepacket')
+    return dict(steps=[], fps=[], oracle=oracle, ops=ops_done, nobj=len(live_s) + len(live_o))
+
+
+
 def main(inp, outp):
     import tenpy
     from tenpy.tools import optimization
@@ -1554,6 +2378,8 @@ def main(inp, outp):
                 results.append(run_mps(case, npc, cy))
             elif case.get('kind') == 'mpo':
                 results.append(run_mpo(case, npc, cy))
+            elif case.get('kind') == 'net':
+                results.append(run_net(case, npc, cy))
             else:
                 w = Walk(case, npc, ch, cy)
                 H = w.run()
